@@ -6,6 +6,7 @@ Copyright 2020 William W. Kimball, Jr. MBA MSIS
 import re
 from datetime import datetime, date, timedelta, timezone
 from ast import literal_eval
+from decimal import Decimal
 from typing import Any, Optional
 
 from dateutil import parser
@@ -348,8 +349,15 @@ class Nodes:
 
         Returns: (ScalarNode) The new node
         """
-        minus_sign = "-" if value < 0.0 else None
-        strval = format(value, '.15f').rstrip('0').rstrip('.')
+        strval = repr(value)
+        minus_sign = "-" if strval.startswith("-") else None
+        if value == value and value not in (float("inf"), float("-inf")):
+            # The shortest digits which read back as exactly this value, in
+            # positional notation and always with a fraction:  ruamel.yaml
+            # takes a precision of 0 for a number that starts with its dot.
+            strval = format(Decimal(strval), "f")
+            if "." not in strval:
+                strval += ".0"
         precision = 0
         width = len(strval)
         lastdot = strval.rfind(".")
